@@ -462,6 +462,25 @@ fn exec(ctx: &Ctx, st: &mut State, toks: &[&str]) -> String {
         ["idx", v, i] => format!("s {}", ctx.render(st.get(v)[parse_nats(i)])),
         ["idxflat", v, i] => format!("s {}", ctx.render(st.get(v)[i.parse::<usize>().unwrap()])),
         ["eq", a, b] | ["same", a, b] => format!("b {}", b01(st.get(a) == st.get(b))),
+        ["sumgrad", c, ps] => {
+            let gs: Vec<Array> = parse_names(ps)
+                .iter()
+                .filter_map(|n| st.get(n).gradient().to_owned())
+                .collect();
+            let gc = st.get(c).gradient().to_owned();
+            let r = match (&gc, gs.split_first()) {
+                (None, None) => true,
+                (Some(g), Some((g0, rest))) => {
+                    let mut acc: Vec<Float> = g0.values().to_vec();
+                    for t in rest {
+                        acc = acc.iter().zip(t.values()).map(|(x, y)| x + y).collect();
+                    }
+                    g.dimensions() == g0.dimensions() && g.values() == &acc[..]
+                }
+                _ => false,
+            };
+            format!("b {}", b01(r))
+        }
         ["lin", c, al, a, be, b] => {
             let (al, be) = (ctx.parse(al), ctx.parse(be));
             let (gc, ga, gb) = (st.get(c).gradient(), st.get(a).gradient(), st.get(b).gradient());
